@@ -285,6 +285,29 @@ def rule_expiry(ctx, res):
                     and all(expired_test(l, True) for l in pc['counting']) and pc['leaving'] and all(expired_test(l, False) for l in pc['leaving'])
             except Lost:
                 good = False
+        elif good and isinstance(strip_transparent(end), tuple) and strip_transparent(end)[0] == 'call' and strip_transparent(end)[1].endswith('::unwrap_or') \
+                and find_calls(strip_transparent(end)[2][0], '::position'):
+            # index of the first entry that is not expired, the whole length when there is none:
+            # `expires.iter().position(|e| !e.is_expired(now)).unwrap_or(expires.len())`
+            uo = strip_transparent(end)
+            pos = strip_transparent(uo[2][0])
+            dflt = strip_transparent(uo[2][1])
+            def over_expires(t):
+                t = strip_transparent(t)
+                return is_field_of_param(t, 'self', 'expires') or (isinstance(t, tuple) and t and t[0] == 'field' and field_chain(t) == ['expires'] and is_param(root_of(t), 'self'))
+            good = pos[0] == 'call' and pos[1].endswith('::position') and over_expires(pos[2][0]) \
+                and dflt[0] == 'call' and dflt[1].split('::')[-1] == 'len' and over_expires(dflt[2][0])
+            if good:
+                cl = pos[2][1]
+                good = False
+                if isinstance(cl, tuple) and cl[0] == 'closure':
+                    cs = Sym(ctx.body(cl[1]))
+                    cs.run()
+                    cc = cs.complete_paths()
+                    if len(cc) == 1:
+                        rel, a, b2, truth = literal((cc[0].ret, ('not', (0,)), -1))
+                        good = rel == 'bool' and truth is False and isinstance(a, tuple) and a[0] == 'call' and a[1] == 'storage::ItemExpiration::is_expired' \
+                            and is_param(root_of(strip_transparent(a[2][0]))) and root_of(strip_transparent(a[2][0]))[1] == 2 and 'curr_time' in fmt(a[2][1])
         elif good:
             pl = c05.pipeline(end)
             names = [x[0] for x in pl]
@@ -328,7 +351,7 @@ def rule_expiry(ctx, res):
 def rule_who(ctx, res):
     """methods applied to the queue / map / lists; no writer outside storage.rs"""
     allowed = {
-        'expires': {'push', 'retain', 'drain', 'len', 'deref', 'iter', 'into_iter', 'next', 'is_empty', 'first', 'get', 'as_slice'},   # writers: push / retain / drain only
+        'expires': {'push', 'retain', 'drain', 'len', 'deref', 'iter', 'into_iter', 'next', 'is_empty', 'first', 'get', 'as_slice', 'position'},   # writers: push / retain / drain only
         'storage': {'get', 'get_mut', 'entry', 'remove', 'contains_key', 'len', 'is_empty'},
     }
     seen = {'expires': set(), 'storage': set()}
